@@ -156,13 +156,22 @@ The property speaks of "a caller that drains it".  tonic's own draining callers 
 call `message()` and `trailers()`.  `Dec.runOps` is a consumer making any sequence of these calls
 on the one stream. -/
 
-/-- **`message()` is `poll_next`.**  A consumer that never calls `trailers()` — any mixture of
-`poll_next` and polls of `message()` futures, each dropped after one poll — sees exactly the
-results of that many `poll_next` calls, so every theorem above is about it too. -/
+/-- Transcription lemma: `Op.next` and `Op.message` are ONE match arm of `Dec.stepOp` (`| .next | .message => …`,
+`Dec.stepOp cd cfg fuel s evs .next = Dec.stepOp cd cfg fuel s evs .message` is `rfl`), so "`message()` is
+`poll_next`" is true by construction of the model and this induction has nothing to discover.  What it
+records: in the model, a consumer that never calls `trailers()` — any mixture of `poll_next` and polls of
+`message()` futures, each dropped after one poll — sees exactly the results of that many `poll_next` calls, so
+the theorems above apply to it.  That the REAL `Streaming::message()` is one `poll_next` (a `poll_fn` holding no
+state of its own, nothing lost when the future is dropped after `Pending`) is carried by the correspondence
+run: the `xdec` cases with `message()` consumers (`O…` op strings, C07 and C01), predicted by `Dec.runOps`. -/
 theorem C07_message_is_poll_next (cd : Codec α) (cfg : DecCfg) (fuel : Nat) (ops : List Op) (evs : List BodyEv)
     (h : ∀ op ∈ ops, op.isPoll = true) :
     Dec.runOps cd cfg fuel ops Dec.init evs = (Dec.run cd cfg ops.length Dec.init evs).map .item :=
   runOps_polls cd cfg fuel ops Dec.init evs h
+
+/- why the lemma above is a transcription lemma: the two ops are the same step, definitionally -/
+example (cd : Codec α) (cfg : DecCfg) (fuel : Nat) (s : DecSt) (evs : List BodyEv) :
+    Dec.stepOp cd cfg fuel s evs .next = Dec.stepOp cd cfg fuel s evs .message := rfl
 
 /-- **Every state a consumer can reach is a good one** (a `ReadBody` state remembers identity or
 the negotiated encoding): the invariant the next three theorems are stated over holds initially
